@@ -50,6 +50,10 @@ def rnd(exact):
         from .values import realval
         return realval(float(fr))       # python's correctly rounded Fraction -> float
     eng = E.cur()
+    if getattr(eng, 'exact_floats', False):
+        # harness-level assumption (stated in its evidence): every float comparison on this path has an exact-arithmetic gap far above
+        # the accumulated rounding error, so the doubles are modelled by their exact real values
+        return exact
     app = R(exact)
     for (a, _) in eng.r_apps:
         if a.eq(exact):
